@@ -8,13 +8,14 @@ from pyvc.engine import Contract, LoopSpec, SpecFunc
 from pyvc.sym import *
 
 PATH = 'pero_ocr/sequence_alignment.py'
+SYM_NONE = NONE_SYM       # the default empty_symbol=None of the alignment functions
 
 
 def imin(a, b):
     return z3.If(a <= b, a, b)
 
 
-def lev_theory(src='source', tgt='target', free_start=False, longer_first=False):
+def lev_theory(src='source', tgt='target', free_start=False, longer_first=False, fname='LEV', costs=None):
     """returns theory(ex, st) declaring LEV over the elements of params src / tgt and the cost params.
     longer_first: the function swaps its arguments so that the first is the longer one; the theory is then
     stated over (longer, shorter)."""
@@ -28,8 +29,8 @@ def lev_theory(src='source', tgt='target', free_start=False, longer_first=False)
                          lambda i: z3.If(swap, T0.get(i), S0.get(i)), 'sym')
             T = ArrayVal((z3.If(swap, to_int(S0.shape[0]), to_int(T0.shape[0])),),
                          lambda i: z3.If(swap, S0.get(i), T0.get(i)), 'sym')
-        sub, ins, dele = [to_int(st.env[c]) for c in ('sub_cost', 'ins_cost', 'del_cost')]
-        LEV = z3.Function('LEV', z3.IntSort(), z3.IntSort(), z3.IntSort())
+        sub, ins, dele = costs or [to_int(st.env[c]) for c in ('sub_cost', 'ins_cost', 'del_cost')]
+        LEV = z3.Function(fname, z3.IntSort(), z3.IntSort(), z3.IntSort())
         a, b = z3.Ints('a b')
         neq = lambda i, j: z3.If(S.get(i) != T.get(j), sub, z3.IntVal(0))
         def lev_def(i, j):
@@ -39,10 +40,14 @@ def lev_theory(src='source', tgt='target', free_start=False, longer_first=False)
                                                 LEV(i - 1, j - 1) + neq(i - 1, j - 1)))
         # base cases are closed forms (not self-triggering); the recursive case is unfolded at occurrences
         axioms = [
-            (['LEV'], z3.ForAll([b], z3.Implies(b >= 0, LEV(0, b) == b * ins), patterns=[LEV(0, b)])),
-            (['LEV'], z3.ForAll([a], z3.Implies(a >= 0, LEV(a, 0) == (z3.IntVal(0) if free_start else a * dele)), patterns=[LEV(a, 0)])),
+            ([fname], z3.ForAll([b], z3.Implies(b >= 0, LEV(0, b) == b * ins), patterns=[LEV(0, b)])),
+            ([fname], z3.ForAll([a], z3.Implies(a >= 0, LEV(a, 0) == (z3.IntVal(0) if free_start else a * dele)), patterns=[LEV(a, 0)])),
         ]
-        names = {'LEV': SpecFunc(lambda i, j: LEV(to_int(i), to_int(j)), 'LEV', defn=lev_def)}
+        names = {fname: SpecFunc(lambda i, j: LEV(to_int(i), to_int(j)), fname, defn=lev_def)}
+        # LEVD(a, b): the distance of the two sequences a, b as a caller sees it (see from_lists); inside the function it is
+        # LEV at the full lengths of its own parameters
+        names['NONE_SYMBOL'] = SpecFunc(lambda: SYM_NONE, 'NONE_SYMBOL')
+        names['LEVD'] = SpecFunc(lambda a_, b_: LEV(to_int(S.shape[0]), to_int(T.shape[0])), 'LEVD')
         if free_start:
             # BEST(i) = min over i' <= i of LEV(i', m): best match of the whole shorter sequence against a substring
             # of the longer one that ends at or before position i
@@ -77,8 +82,9 @@ CONTRACTS[(PATH, 'levenshtein_distance')] = Contract(
     params={'source': 'seq:sym', 'target': 'seq:sym', 'sub_cost': 'int', 'ins_cost': 'int', 'del_cost': 'int'},
     requires=COSTS, inline=['_as_symbol_array'],
     theory=lev_theory(), ladder=LADDER,
-    ensures=['result == LEV(len(source), len(target))', 'result >= 0'],
-    public_ensures=['result >= 0'],
+    ensures=['result == LEV(len(source), len(target))', 'result >= 0', 'result == LEVD(source_0, target_0)'],
+    # callers with unit costs read LEVD as the unit-cost distance of the two argument sequences
+    public_ensures=['result >= 0', {'needs': ['LEVD'], 'text': 'implies(sub_cost == 1 and ins_cost == 1 and del_cost == 1, result == LEVD(source_0, target_0))'}],
     result=lambda ex, st, env: z3.Int(fresh_name('lev')),
     loops={
         0: LoopSpec(counter='i', inv=[
@@ -104,6 +110,38 @@ SEQ_SYM = z3.SeqSort(Sym)
 SEQ_REAL = z3.SeqSort(z3.RealSort())
 
 
+def pair_family(E, sub, ins, dele):
+    """projections, cost and the no-(E, E)-pair predicate of an alignment (sequence of pairs), cons-recursive; shared by the
+    contract of levenshtein_alignment and by its callers so that both sides read the same definitions"""
+    projS = z3.Function('projS', SEQ_PAIR, SEQ_SYM)
+    projT = z3.Function('projT', SEQ_PAIR, SEQ_SYM)
+    cost = z3.Function('cost', SEQ_PAIR, z3.IntSort())
+    noee = z3.Function('NOEE', SEQ_PAIR, z3.BoolSort())
+    q = z3.Const('q', PAIR.sort)
+    s = z3.Const('s', SEQ_PAIR)
+    fst, snd = PAIR.accs
+    cons = z3.Concat(z3.Unit(q), s)
+    empty = z3.Empty(SEQ_PAIR)
+    axioms = [
+        (['projS'], projS(empty) == z3.Empty(SEQ_SYM)), (['projT'], projT(empty) == z3.Empty(SEQ_SYM)),
+        (['cost'], cost(empty) == 0), (['NOEE'], noee(empty)),
+        (['projS'], z3.ForAll([q, s], projS(cons) == z3.If(fst(q) == E, projS(s), z3.Concat(z3.Unit(fst(q)), projS(s))),
+                              patterns=[projS(cons)])),
+        (['projT'], z3.ForAll([q, s], projT(cons) == z3.If(snd(q) == E, projT(s), z3.Concat(z3.Unit(snd(q)), projT(s))),
+                              patterns=[projT(cons)])),
+        (['cost'], z3.ForAll([q, s], cost(cons) == cost(s) + z3.If(fst(q) == E, ins, z3.If(snd(q) == E, dele,
+                                                                   z3.If(fst(q) != snd(q), sub, z3.IntVal(0)))),
+                             patterns=[cost(cons)])),
+        (['NOEE'], z3.ForAll([q, s], noee(cons) == z3.And(noee(s), z3.Not(z3.And(fst(q) == E, snd(q) == E))),
+                             patterns=[noee(cons)])),
+    ]
+    names = {'projS': SpecFunc(lambda a: SeqVal(projS(a.s), SymCodec)),
+             'projT': SpecFunc(lambda a: SeqVal(projT(a.s), SymCodec)),
+             'cost': SpecFunc(lambda a: cost(a.s)),
+             'NOEE': SpecFunc(lambda a: noee(a.s))}
+    return names, axioms
+
+
 def align_theory(path_variant=False):
     """LEV + suffix sequences SUF_S / SUF_T + projections/cost of an alignment (cons-recursive)"""
     base = lev_theory()
@@ -120,26 +158,10 @@ def align_theory(path_variant=False):
             E = st.env['empty_symbol']
             SUF_S = z3.Function('SUF_S', z3.IntSort(), SEQ_SYM)
             SUF_T = z3.Function('SUF_T', z3.IntSort(), SEQ_SYM)
-            projS = z3.Function('projS', SEQ_PAIR, SEQ_SYM)
-            projT = z3.Function('projT', SEQ_PAIR, SEQ_SYM)
-            cost = z3.Function('cost', SEQ_PAIR, z3.IntSort())
-            q = z3.Const('q', PAIR.sort)
-            s = z3.Const('s', SEQ_PAIR)
-            fst, snd = PAIR.accs
-            cons = z3.Concat(z3.Unit(q), s)
-            empty = z3.Empty(SEQ_PAIR)
+            fam_names, fam_axioms = pair_family(E, sub, ins, dele)
             axioms += [
-                (['SUF_S'], SUF_S(n) == z3.Empty(SEQ_SYM)), (['SUF_T'], SUF_T(m) == z3.Empty(SEQ_SYM)),
-                (['projS'], projS(empty) == z3.Empty(SEQ_SYM)), (['projT'], projT(empty) == z3.Empty(SEQ_SYM)),
-                (['cost'], cost(empty) == 0),
-                (['projS'], z3.ForAll([q, s], projS(cons) == z3.If(fst(q) == E, projS(s), z3.Concat(z3.Unit(fst(q)), projS(s))),
-                                      patterns=[projS(cons)])),
-                (['projT'], z3.ForAll([q, s], projT(cons) == z3.If(snd(q) == E, projT(s), z3.Concat(z3.Unit(snd(q)), projT(s))),
-                                      patterns=[projT(cons)])),
-                (['cost'], z3.ForAll([q, s], cost(cons) == cost(s) + z3.If(fst(q) == E, ins, z3.If(snd(q) == E, dele,
-                                                                           z3.If(fst(q) != snd(q), sub, z3.IntVal(0)))),
-                                     patterns=[cost(cons)])),
-            ]
+                (['SUF_S'], SUF_S(n) == z3.Empty(SEQ_SYM)), (['SUF_T'], SUF_T(m) == z3.Empty(SEQ_SYM))] + fam_axioms
+            names.update(fam_names)
             names.update({
                 'SUF_S': SpecFunc(lambda i: SeqVal(SUF_S(to_int(i)), SymCodec), 'SUF_S', defn=lambda i: z3.Implies(
                     z3.And(to_int(i) >= 0, to_int(i) < n),
@@ -147,9 +169,6 @@ def align_theory(path_variant=False):
                 'SUF_T': SpecFunc(lambda i: SeqVal(SUF_T(to_int(i)), SymCodec), 'SUF_T', defn=lambda i: z3.Implies(
                     z3.And(to_int(i) >= 0, to_int(i) < m),
                     SUF_T(to_int(i)) == z3.Concat(z3.Unit(T.get(to_int(i))), SUF_T(to_int(i) + 1)))),
-                'projS': SpecFunc(lambda a: SeqVal(projS(a.s), SymCodec)),
-                'projT': SpecFunc(lambda a: SeqVal(projT(a.s), SymCodec)),
-                'cost': SpecFunc(lambda a: cost(a.s)),
             })
         else:
             # path variant: list of moves built by append while walking back from (n, m)
@@ -237,11 +256,16 @@ CONTRACTS[(PATH, 'levenshtein_alignment')] = Contract(
     requires=COSTS + ['forall(lambda k: implies(0 <= k and k < len(source), source[k] != empty_symbol))',
                       'forall(lambda k: implies(0 <= k and k < len(target), target[k] != empty_symbol))'],
     theory=align_theory(), ladder=LADDER, inline=['_as_symbol_array'], ghosts={'seqvars': {'alig': PAIR}},
-    ensures=['projS(result) == SUF_S(0)', 'projT(result) == SUF_T(0)', 'cost(result) == LEV(len(source), len(target))'],
+    ensures=['projS(result) == SUF_S(0)', 'projT(result) == SUF_T(0)', 'cost(result) == LEV(len(source), len(target))',
+             'NOEE(result)', 'cost(result) == LEVD(source_0, target_0)'],
+    # for callers with unit costs and the default empty symbol, whose theory reads cost / NOEE / LEVD with those values
+    public_ensures=[{'needs': ['LEVD', 'cost', 'NOEE', 'NONE_SYMBOL'],
+                     'text': 'implies(sub_cost == 1 and ins_cost == 1 and del_cost == 1 and empty_symbol == NONE_SYMBOL(), cost(result) == LEVD(source_0, target_0) and NOEE(result))'}],
+    result=lambda ex, st, env: SeqVal(z3.Const(fresh_name('alignment'), SEQ_PAIR), PAIR),
     loops=_merge(ALIGN_LOOPS, {
         2: LoopSpec(counter='w', inv=[
             '0 <= src_pos and src_pos <= len(source)', '0 <= tar_pos and tar_pos <= len(target)',
-            'projS(alig) == SUF_S(src_pos)', 'projT(alig) == SUF_T(tar_pos)',
+            'projS(alig) == SUF_S(src_pos)', 'projT(alig) == SUF_T(tar_pos)', 'NOEE(alig)',
             'cost(alig) + LEV(src_pos, tar_pos) == LEV(len(source), len(target))'],
             variant='src_pos + tar_pos')}),
 )
@@ -336,4 +360,118 @@ CONTRACTS[(ES_PATH, 'ErrorsSummary.aggregate')] = Contract(
     ensures=['result.%s == SUM_%s(len(errors))' % (f, f) for f in TOTALS],
     loops={0: LoopSpec(counter='kk', inv=['%s == SUM_%s(kk)' % ('total_' + f.replace('nb_lines_summarized', 'nb_lines'), f) for f in TOTALS]),
            1: LoopSpec(counter='kc', inv=[])},
+)
+
+
+# ---------------------------------------------------------------------------------------------------
+# edit_stats_for_alignment and ErrorsSummary.from_lists: substitutions + insertions + deletions == distance
+#
+# Counts over an alignment (a z3 sequence of pairs), by recursion on the suffix that starts at position k:
+#   NINS(a, k)  pairs at positions >= k whose second component is the empty symbol
+#   NDEL(a, k)  ... whose first component is the empty symbol
+#   NCOR(a, k)  ... whose two components are equal
+# edit_stats_for_alignment counts with numpy (np.sum of boolean vectors, modelled as COUNT<n>, same recursion);
+# the lemma `counts` identifies the two.
+
+
+
+def count_names(E):
+    fst, snd = PAIR.accs
+    out = {}
+    for nm, pred in (('NINS', lambda q: snd(q) == E), ('NDEL', lambda q: fst(q) == E), ('NCOR', lambda q: fst(q) == snd(q))):
+        F = z3.Function(nm, SEQ_PAIR, z3.IntSort(), z3.IntSort())
+
+        def defn(a, i, F=F, pred=pred):
+            i = to_int(i)
+            n = z3.Length(a.s)
+            return z3.And(z3.Implies(z3.And(i >= 0, i < n), F(a.s, i) == F(a.s, i + 1) + z3.If(pred(a.s[i]), 1, 0)),
+                          z3.Implies(i == n, F(a.s, i) == 0))
+        out[nm] = SpecFunc(lambda a, i, F=F: F(a.s, to_int(i)), nm, defn=defn)
+    return out
+
+
+def _alig_param(ex, st, n):
+    return SeqVal(z3.Const(n, SEQ_PAIR), PAIR)
+
+
+def edit_stats_theory(ex, st):
+    return count_names(st.env['empty_symbol']), []
+
+
+CONTRACTS[(PATH, 'edit_stats_for_alignment')] = Contract(
+    params={'alig': _alig_param, 'empty_symbol': 'sym'}, theory=edit_stats_theory,
+    lemmas=[{'name': 'counts', 'var': 'k', 'lo': '0', 'hi': 'len(alig_0)', 'direction': 'down',
+             'needs': ['COUNT0', 'COUNT1', 'COUNT2'],
+             'stmt': 'COUNT0(k) == NCOR(alig_0, k) and COUNT1(k) == NDEL(alig_0, k) and COUNT2(k) == len(alig_0) - k - NINS(alig_0, k)'}],
+    # (nphn, ncor, nins, ndel, nsub)
+    ensures=['result[0] == len(alig_0) - NINS(alig_0, 0)', 'result[1] == NCOR(alig_0, 0)', 'result[2] == NINS(alig_0, 0)',
+             'result[3] == NDEL(alig_0, 0)',
+             'result[4] == len(alig_0) - NCOR(alig_0, 0) - NINS(alig_0, 0) - NDEL(alig_0, 0)'],
+    result=lambda ex, st, env: tuple(z3.Int(fresh_name(n)) for n in ('nphn', 'ncor', 'nins', 'ndel', 'nsub')),
+)
+CONTRACTS[(PATH, 'edit_stats_for_alignment')].public_ensures = list(CONTRACTS[(PATH, 'edit_stats_for_alignment')].ensures)
+
+
+def from_lists_theory(ex, st):
+    """unit-cost distances in both argument orders (the function computes the distance as (ref, hyp) but the alignment as
+    (hyp, ref)), the alignment family with unit costs and None as the empty symbol, the suffix counts, and TAIL(a, k) =
+    the suffix of the sequence a from position k"""
+    from pyvc.engine import Unsupported
+    R, H = st.env['ref'], st.env['hyp']
+    n, m = to_int(R.shape[0]), to_int(H.shape[0])
+    one = z3.IntVal(1)
+    na, aa = lev_theory(src='ref', tgt='hyp', fname='LEV_ref_hyp', costs=(one, one, one))(ex, st)
+    nb, ab = lev_theory(src='hyp', tgt='ref', fname='LEV_hyp_ref', costs=(one, one, one))(ex, st)
+    LA, LB = na['LEV_ref_hyp'].fn, nb['LEV_hyp_ref'].fn
+    names = {'LEV_ref_hyp': na['LEV_ref_hyp'], 'LEV_hyp_ref': nb['LEV_hyp_ref'], 'NONE_SYMBOL': na['NONE_SYMBOL']}
+
+    def levd(a, b):
+        if a is R and b is H:
+            return LA(n, m)
+        if a is H and b is R:
+            return LB(m, n)
+        raise Unsupported('LEVD of sequences other than the two parameters')
+    names['LEVD'] = SpecFunc(levd, 'LEVD')
+    fam_names, fam_axioms = pair_family(SYM_NONE, one, one, one)
+    names.update(fam_names)
+    names.update(count_names(SYM_NONE))
+
+    def tail(a, k):
+        k = to_int(k)
+        return z3.Extract(a.s, k, z3.Length(a.s) - k)
+    names['TAIL'] = SpecFunc(lambda a, k: SeqVal(tail(a, k), PAIR), 'TAIL')
+    # facts of the sequence theory, stated as lemmas (proved, then used by the inductions)
+    names['TAIL_UNFOLDS'] = SpecFunc(lambda a, k: tail(a, k) == z3.Concat(z3.Unit(a.s[to_int(k)]), tail(a, to_int(k) + 1)), 'TAIL_UNFOLDS')
+    names['TAIL_ENDS'] = SpecFunc(lambda a: z3.And(tail(a, 0) == a.s, tail(a, z3.Length(a.s)) == z3.Empty(SEQ_PAIR)), 'TAIL_ENDS')
+    return names, aa + ab + fam_axioms
+
+
+_AL = 'alignment'
+CONTRACTS[(ES_PATH, 'ErrorsSummary.from_lists')] = Contract(
+    params={'cls': lambda ex, st, n: Opaque('class:ErrorsSummary'), 'ref': 'seq:sym', 'hyp': 'seq:sym'},
+    requires=['forall(lambda k: implies(0 <= k and k < len(ref), ref[k] != NONE_SYMBOL()))',
+              'forall(lambda k: implies(0 <= k and k < len(hyp), hyp[k] != NONE_SYMBOL()))'],
+    theory=from_lists_theory, ladder=[dict(len_ref=1, len_hyp=2), dict(len_ref=2, len_hyp=1), dict(len_ref=0, len_hyp=1)],
+    ghosts={'ctor:ErrorsSummary': _summary_ctor},
+    # not modelled: the confusion table and the ending-error summary (they read `alignment` and write only the
+    # `confusions` / `ending_errors` fields, which no clause of C13 constrains)
+    replace={'confusions = defaultdict(Counter)': ['confusions = 0'], 'for hyp_sym, ref_sym in alignment': [],
+             'match_types = ': [], 'ending_mistakes = ': [], 'end_errors = ': ['end_errors = 0']},
+    lemmas=[
+        {'name': 'LEV-symmetric', 'var': 'd', 'lo': '0', 'hi': 'len(ref) + len(hyp)', 'direction': 'up',
+         'stmt': 'forall(lambda i, j: implies(0 <= i and i <= len(ref) and 0 <= j and j <= len(hyp) and i + j <= d, '
+                 'LEV_ref_hyp(i, j) == LEV_hyp_ref(j, i)))'},
+        {'name': 'tail-ends', 'uses': [], 'stmt': 'TAIL_ENDS(%s)' % _AL},
+        {'name': 'cost-is-number-of-unequal-pairs', 'var': 'k', 'lo': '0', 'hi': 'len(%s)' % _AL, 'direction': 'down',
+         'uses': ['tail-ends'], 'step_facts': ['TAIL_UNFOLDS(%s, k - 1)' % _AL],
+         'stmt': 'implies(NOEE(TAIL(%(a)s, k)), cost(TAIL(%(a)s, k)) == len(%(a)s) - k - NCOR(%(a)s, k))' % {'a': _AL}},
+        {'name': 'counts-are-disjoint', 'var': 'k', 'lo': '0', 'hi': 'len(%s)' % _AL, 'direction': 'down',
+         'uses': ['tail-ends'], 'step_facts': ['TAIL_UNFOLDS(%s, k - 1)' % _AL],
+         'stmt': 'implies(NOEE(TAIL(%(a)s, k)), NINS(%(a)s, k) >= 0 and NDEL(%(a)s, k) >= 0 and NCOR(%(a)s, k) >= 0 and '
+                 'NINS(%(a)s, k) + NDEL(%(a)s, k) + NCOR(%(a)s, k) <= len(%(a)s) - k)' % {'a': _AL}},
+    ],
+    ensures=['result.nb_lines_summarized == 1', 'result.ref_len == len(ref)',
+             'result.nb_errors == LEVD(ref, hyp)',
+             'result.nb_subs + result.nb_inss + result.nb_dels == result.nb_errors',
+             'result.nb_subs >= 0 and result.nb_inss >= 0 and result.nb_dels >= 0'],
 )
